@@ -192,7 +192,45 @@ def check_props(pid):
 
 
 # property -> translated units (harness/pytrans.py:UNITS) whose equivalence proofs belong to it
-GEN_UNITS = {'C01': ['C01_validate'], 'C04': ['C04_match'], 'C15': ['C15_limits'], 'C20': ['C20_dedupe']}
+GEN_UNITS = {'C01': ['C01_validate'], 'C04': ['C04_match'], 'C11': ['C11_index'], 'C15': ['C15_limits'], 'C20': ['C20_dedupe']}
+
+
+def prims_selftest(n=240, seed=7):
+    """The semantics the translator assigns to Python operations (coq/Base/PyPrims.v) against CPython:
+    str.find / in / startswith / endswith / negative indices / slices on generated strings (not a proof:
+    validation of the trusted primitives).  -> (cases, failing)"""
+    import inspect
+    rng = random.Random(seed)
+    alpha = 'ab\n\r'
+    cases = []
+    for _ in range(n):
+        s = ''.join(rng.choice(alpha) for _ in range(rng.randint(0, 6)))
+        p = ''.join(rng.choice(alpha) for _ in range(rng.choice([0, 1, 1, 2, 3])))
+        i = rng.randint(-8, 8)
+        try:
+            idx = s[i]
+        except IndexError:
+            idx = None
+        obs = '(%s, %s, %s, %s, %s, %s, %s)' % (
+            g_Z(s.find(p)), g_bool(p in s), g_bool(s.startswith(p)), g_bool(s.endswith(p)),
+            g_opt(idx, g_str), g_str(s[i:]), g_str(s[:i]))
+        cases.append('(%s, %s, %s, %s)' % (g_str(s), g_str(p), g_Z(i), obs))
+    kinds = [int(getattr(inspect.Parameter, k)) for k in
+             ('POSITIONAL_ONLY', 'POSITIONAL_OR_KEYWORD', 'VAR_POSITIONAL', 'KEYWORD_ONLY', 'VAR_KEYWORD')]
+    defs = """
+Definition ostr_eqb (a b : option str) := match a, b with Some x, Some y => str_eqb x y | None, None => true | _, _ => false end.
+Definition chk (c : str * str * Z * (Z * bool * bool * bool * option str * str * str)) : bool :=
+  let '(s, p, i, (f, inn, sw, ew, idx, sl_from, sl_to)) := c in
+  Z.eqb (py_find s p) f && Bool.eqb (py_str_in p s) inn && Bool.eqb (starts_with s p) sw && Bool.eqb (py_endswith s p) ew
+  && ostr_eqb (py_str_index s i) idx && str_eqb (py_slice_from s i) sl_from && str_eqb (py_slice_to s i) sl_to.
+"""
+    fails, err = coq_failing('From JV Require Import Base.Str Base.PyPrims.\nOpen Scope Z_scope.\n', 'chk', cases, shard=300, defs=defs)
+    if err:
+        return len(cases), ['coq: ' + err[-300:]]
+    out = [cases[i] for i in fails[:3]]
+    if kinds != [0, 1, 2, 3, 4]:
+        out.append('inspect.Parameter kinds are %r' % (kinds,))
+    return len(cases), out
 
 
 def check_gen(pid):
@@ -204,6 +242,11 @@ def check_gen(pid):
     res = dict(units=[], theorems=[], obligations=0, discharged=0, ok=True, why='')
     if not units:
         return res
+    ncase, bad = prims_selftest()
+    res['primitive_cases_vs_cpython'] = ncase
+    if bad:
+        res['ok'] = False
+        res['why'] += 'PyPrims disagrees with CPython: %r; ' % (bad,)
     tmpd = tempfile.mkdtemp(prefix='jvgen_')
     try:
         for u in units:
@@ -449,6 +492,7 @@ class Ctx:
         if gen['units'] or not gen['ok']:
             self.cov['translated_units'] = gen['units']
             self.cov['translation_theorems'] = gen['theorems']
+            self.cov['translation_primitive_cases_vs_cpython'] = gen.get('primitive_cases_vs_cpython')
             self.cov['obligations'] += gen['obligations']
             self.cov['discharged'] += 0 if hits else gen['discharged']
             self.cov['checker_cmd'] += ' ; harness/pytrans.py regenerates Gen_<unit>.v from the source, coqc Gen_<unit>.v, coqc GenProofs/<unit>_Equiv.v'
